@@ -26,6 +26,7 @@ static int mode_points(int npts)
     for (int p = 0; p < 4; p++) for (int g = 0; g < 3; g++) for (int a = 0; a < 4; a++) for (int b = 0; b < 2; b++) {
         double Rmax = rng.pick(std::vector<double>{1.3, 1.3, 1.0, 2.0, rng.uniform(0.8, 2.5)}), kappa = g == 2 ? rng.uniform(0.1, 0.5) : rng.uniform(0.0, 0.5), delta = g == 2 ? rng.uniform(1.0, 2.0) : rng.uniform(0.0, 0.3);
         double aj = 0.7081 * Rmax;
+        const double R0 = rng.pick(std::vector<double>{1e-5, 0.05, 0.1}) * Rmax / 1.3;
         std::vector<std::string> args = {"gmgpolar", "--verbose", "0", "--problem", std::to_string(p), "--geometry", std::to_string(g), "--alpha_coeff", std::to_string(a), "--beta_coeff",
                                          std::to_string(b), "--Rmax", "1.3"};
         char buf[64];
@@ -33,6 +34,8 @@ static int mode_points(int npts)
         snprintf(buf, sizeof buf, "%.17g", kappa); args.push_back("--kappa_eps"); args.push_back(buf);
         snprintf(buf, sizeof buf, "%.17g", delta); args.push_back("--delta_e"); args.push_back(buf);
         snprintf(buf, sizeof buf, "%.17g", aj); args.push_back("--alpha_jump"); args.push_back(buf);
+        snprintf(buf, sizeof buf, "%.17g", R0); args.push_back("--R0"); args.push_back(buf);
+        const double R0v = atof(buf);
         std::vector<char*> argv;
         for (auto& s : args) argv.push_back(const_cast<char*>(s.c_str()));
         GMGPolar fresh_obj;
@@ -41,10 +44,11 @@ static int mode_points(int npts)
         try { gm.setParameters((int)argv.size(), argv.data()); }
         catch (const std::exception& e) { printf("NOTUP %d %d %d %d\n", p, g, a, b); continue; }
         GMGPolarVerif v(gm);
-        printf("TUP %d %d %d %d Rmax=%s kappa=%s delta=%s alpha_jump=%s\n", p, g, a, b, hex(Rmax).c_str(), hex(atof(args[14].c_str())).c_str(), hex(atof(args[16].c_str())).c_str(), hex(aj).c_str());
+        printf("TUP %d %d %d %d Rmax=%s kappa=%s delta=%s alpha_jump=%s R0=%s\n", p, g, a, b, hex(Rmax).c_str(), hex(atof(args[14].c_str())).c_str(), hex(atof(args[16].c_str())).c_str(), hex(aj).c_str(), hex(R0v).c_str());
         for (int q = 0; q < npts; q++) {
             double r = q % 5 == 0 ? std::pow(10.0, rng.uniform(-3.0, 0.0)) * Rmax : rng.uniform(0.05, 1.0) * Rmax;
             if (q % 7 == 0) r = Rmax; // boundary data are compared with the exact solution on the boundary
+            if (q % 7 == 3) r = R0v;  // … and the interior Dirichlet data with the exact solution on the inner boundary
             double th = rng.uniform(0.0, 2 * M_PI), s = sin(th), c = cos(th);
             double u = v.exact() ? v.exact()->exact_solution(r, th, s, c) : 0.0;
             printf("PT %s %s u=%s al=%s be=%s Fx=%s Fy=%s Jrr=%s Jtr=%s Jrt=%s Jtt=%s f=%s uD=%s uDI=%s\n", hex(r).c_str(), hex(th).c_str(), hex(u).c_str(), hex(v.coef().alpha(r)).c_str(),
